@@ -149,6 +149,25 @@ class ReqRun:
         self.step(1)
         return r
 
+    def user_close(self):
+        async def w():
+            self.log("close")
+            await self.pairing.connection.close()
+        self.loop.create_task(w())
+        self.closed_by_user = True
+        self.settle()
+
+    def user_open(self):
+        async def w():
+            self.log("open")
+            try:
+                await self.pairing.connection.ensure_connection()
+            except Exception:  # noqa: BLE001
+                pass
+        self.loop.create_task(w())
+        self.closed_by_user = False
+        self.settle()
+
     def cancel(self, r):
         self.log("cancel", r=r)
         self.tasks[r].cancel()
@@ -246,7 +265,17 @@ def stimulus(r: ReqRun, rng):
         if not t.done():
             opts += [("cancel", q)]
     opts += [("advance",)] * 3
+    if getattr(r, "closed_by_user", False):
+        opts += [("open",)] * 4
+    else:
+        opts += [("uclose",)]
     o = rng.choice(opts)
+    if o[0] == "uclose":
+        r.user_close()
+        return True
+    if o[0] == "open":
+        r.user_open()
+        return True
     if o[0] == "issue":
         r.issue(rng.choice(["GET", "GET", "PUT", "POST"]))
         return False
